@@ -286,15 +286,21 @@ class StereoMolGraph(MolGraph):
         :param atoms: Atoms to be used for the subgraph
         :return: Subgraph
         """
+        atoms = tuple(atoms)  # the argument may be a one-shot iterable
         new_graph = super().subgraph(atoms)
+        atom_set = set(atoms)
 
+        # None is the placeholder for a lone pair, not an atom
         for central_atom, atoms_atom_stereo in self._atom_stereo.items():
             atoms_set = set((*atoms_atom_stereo.atoms, central_atom))
-            if all(atom in atoms for atom in atoms_set):
+            if all(atom is None or atom in atom_set for atom in atoms_set):
                 new_graph.set_atom_stereo(atoms_atom_stereo)
 
         for _bond, bond_stereo in self._bond_stereo.items():
-            if all(atom in atoms for atom in bond_stereo.atoms):
+            if all(
+                atom is None or atom in atom_set
+                for atom in bond_stereo.atoms
+            ):
                 new_graph.set_bond_stereo(bond_stereo)
         return new_graph
 
@@ -375,6 +381,7 @@ class StereoMolGraph(MolGraph):
         :return: Returns MolGraph
         """
 
+        mol_graphs = tuple(mol_graphs)  # may be a one-shot iterable
         graph = cls(super().compose(mol_graphs))
         for mol_graph in mol_graphs:
             graph._atom_stereo.update(cls(mol_graph)._atom_stereo)
